@@ -145,3 +145,31 @@ pub fn c01_reloc_fontref() {
         kani::cover!(da.is_some(), "table found");
     }
 }
+
+// @bound BitmapSize::location on a concrete frame (one BitmapSize record in its own 48 bytes; offset data = index subtable list of 1 record + one index subtable of 28 bytes) with symbolic contents: glyph ranges, index format (1..=5 and invalid), image format / data offset, 20 bytes of subtable body, symbolic glyph id; unwind 7
+// @c20
+// @timeout 600
+#[cfg_attr(kani, kani::proof)]
+#[cfg_attr(kani, kani::unwind(7))]
+pub fn c01_frame_bitmap_location() {
+    use read_fonts::tables::bitmap::BitmapSize;
+    let mut s: [u8; 48] = kani::any();
+    // indexSubtableListOffset = 0, indexSubtableListSize = 36, numberOfIndexSubtables = 1
+    s[0] = 0; s[1] = 0; s[2] = 0; s[3] = 0;
+    s[4] = 0; s[5] = 0; s[6] = 0; s[7] = 36;
+    s[8] = 0; s[9] = 0; s[10] = 0; s[11] = 1;
+    let mut b: [u8; 36] = kani::any();
+    // record: first / last glyph symbolic, additionalOffsetToIndexSubtable = 8
+    b[4] = 0; b[5] = 0; b[6] = 0; b[7] = 8;
+    // index format: high byte 0
+    b[8] = 0;
+    let Ok(size) = FontData::new(&s).read_ref_at::<BitmapSize>(0) else { return };
+    let gid: u32 = kani::any();
+    let r = size.location(FontData::new(&b), GlyphId::new(gid));
+    if let Ok(loc) = &r {
+        kani::cover!(b[9] == 4, "format 4 location found");
+        kani::cover!(b[9] == 1, "format 1 location found");
+        kani::cover!(b[9] == 5, "format 5 location found");
+    }
+    kani::cover!(r.is_err(), "location rejected");
+}
